@@ -39,6 +39,19 @@ class Instrumented:
         pkg.__package__ = "strengths"
         self.modules["strengths"] = pkg
         self.loading = set()
+        self._init_package(pkg)
+
+    def _init_package(self, pkg):
+        """execute strengths/__init__.py itself so that modules are imported in the real order
+        (the package has import cycles whose outcome depends on it)"""
+        path = os.path.join(self.src, "strengths", "__init__.py")
+        with open(path, encoding="utf-8") as f:
+            source = f.read()
+        code = compile(source, path, "exec")
+        g = pkg.__dict__
+        g["__builtins__"] = self.builtins
+        g["__file__"] = path
+        exec(code, g)
 
     # ------------------------------------------------------------------
     def _path(self, name):
@@ -100,6 +113,8 @@ class Instrumented:
         # parent packages
         parts = name.split(".")
         parent = self.modules["strengths"]
+        if len(parts) == 2:
+            setattr(parent, parts[1], mod)     # visible during circular imports, as in sys.modules
         exec(code, g)
         hook = POST_LOAD.get(name)
         if hook:
